@@ -31,7 +31,7 @@ OBLIGATIONS += [blk(64), blk(64, inplace=1), blk(1), blk(63), blk(63, inplace=1,
 # lengths above one block: one obligation per output block (the two-block miter in a single query does not finish in 900 s)
 for nb_ in (65, 128, 129):
     for b_ in range((nb_ + 63) // 64):
-        o_ = blk(nb_, tier="thorough", cbmc=["--unwind", str(nb_ + 12), "--unwinding-assertions"], timeout=1500)
+        o_ = blk(nb_, tier="thorough", cbmc=["--unwind", str(nb_ + 12), "--unwinding-assertions"], timeout=3000)
         o_["name"] += ".blk%d" % b_
         o_["defs"] = o_["defs"] + ["-DVONLYBLK=%d" % b_]
         o_["what"] += " [output bytes of block %d; sibling obligations take the other blocks]" % b_
